@@ -16,6 +16,17 @@ func configure(g *gen) {
 			{"host", "string", "host", tStr},
 			{"user", "*url.Userinfo", "user", T{"opaque", "Option Nat"}},
 		}},
+		// pkg/render: the renderer values
+		{Pkg: "pkg/render", Go: "JSONRenderer", Lean: "JSONR", OptIn: true, Derive: "Repr, Inhabited", Fields: []FieldSpec{
+			{"Indent", "string", "indent", tStr},
+			{"NotEscape", "bool", "notEscape", tBool},
+		}},
+		{Pkg: "pkg/render", Go: "JSONPRenderer", Lean: "JSONPR", OptIn: true, Derive: "Repr, Inhabited", Fields: []FieldSpec{
+			{"Callback", "string", "callback", tStr},
+		}},
+		{Pkg: "pkg/render", Go: "XMLRenderer", Lean: "XMLR", OptIn: true, Derive: "Repr, Inhabited", Fields: []FieldSpec{
+			{"Indent", "string", "indent", tStr},
+		}},
 		{Pkg: "net/url", Go: "URL", Lean: "URL", External: true, OptIn: true, Derive: "Repr, Inhabited", Fields: []FieldSpec{
 			{"Scheme", "string", "scheme", tStr},
 			{"User", "*Userinfo", "user", T{"opaque", "Option Nat"}},
@@ -380,6 +391,27 @@ func configure(g *gen) {
 	rspec("TextBytes", "renderTextBytes")
 	rspec("HTML", "renderHTML")
 	rspec("HTMLBytes", "renderHTMLBytes")
+	// json.go / xml.go: the three renderers.  The encoder is a record of its settings (`GoRt.JEnc`); `Encode` — marshal
+	// the value and write the encoding to the writer, or fail — is the parameter `encode` (it gets the settings)
+	encT := T{"opaque", "GoRt.JEnc"}
+	encExts := append([]Ext{
+		{Callee: "json.NewEncoder", Value: "(default : GoRt.JEnc)", T: encT},
+		{Callee: "xml.NewEncoder", Value: "(default : GoRt.JEnc)", T: encT},
+		{Callee: "enc.SetIndent", Stmts: []string{"enc := { enc with prefix_ := %1, indent := %2 }"}},
+		{Callee: "enc.Indent", Stmts: []string{"enc := { enc with prefix_ := %1, indent := %2 }"}},
+		{Callee: "enc.SetEscapeHTML", Stmts: []string{"enc := { enc with escapeHTML := %1 }"}},
+		{Callee: "enc.Encode", Stmts: []string{"let %t := encode enc w", "w := %t.1"}, Value: "%t.2", T: T{"opaque", "Bool"}},
+	}, hwExts...)
+	encTypes := map[string]T{"http.ResponseWriter": hw, "http.Header": {"opaque", "List (Bytes × Bytes)"}, "*json.Encoder": encT, "*xml.Encoder": encT, "any": {"opaque", "Unit"}}
+	add(FnSpec{Pkg: "pkg/render", Recv: "JSONRenderer", Func: "Render", Lean: "JSONR.Render", UseStructs: []string{"JSONRenderer"}, MutParams: []string{"w"},
+		Extra: []string{"(wans : GoRt.HW → Bool)", "(encode : GoRt.JEnc → GoRt.HW → GoRt.HW × Bool)"},
+		RetExtra: []string{"w"}, RetExtraT: []string{"GoRt.HW"}, Types: encTypes, Exts: encExts})
+	add(FnSpec{Pkg: "pkg/render", Recv: "JSONPRenderer", Func: "Render", Lean: "JSONPR.Render", UseStructs: []string{"JSONPRenderer"}, MutParams: []string{"w"},
+		Extra: []string{"(wans : GoRt.HW → Bool)", "(encode : GoRt.JEnc → GoRt.HW → GoRt.HW × Bool)"},
+		RetExtra: []string{"w"}, RetExtraT: []string{"GoRt.HW"}, Types: encTypes, Exts: encExts})
+	add(FnSpec{Pkg: "pkg/render", Recv: "XMLRenderer", Func: "Render", Lean: "XMLR.Render", UseStructs: []string{"XMLRenderer"}, MutParams: []string{"w"},
+		Extra: []string{"(wans : GoRt.HW → Bool)", "(encode : GoRt.JEnc → GoRt.HW → GoRt.HW × Bool)"},
+		RetExtra: []string{"w"}, RetExtraT: []string{"GoRt.HW"}, Types: encTypes, Exts: encExts})
 	add(FnSpec{Pkg: "pkg/render", Func: "Auto", Lean: "renderAuto", MutParams: []string{"w"},
 		Extra:    []string{"(env : GoRt.RAEnv GoRt.HW)", "(fallbackType : Bytes)"},
 		RetExtra: []string{"w"}, RetExtraT: []string{"GoRt.HW"},
